@@ -15,6 +15,19 @@ def run(tier):
     chain_mc(v, wd, "protocol-2h", mconsts(Handles={"h1", "h2"}, Calls={"AV", "GC", "AS"}, MaxLen=4))
     chain_mc(v, wd, "protocol-accepting-stale-parent", mconsts(MaxLen=4, DevFork=True),
              expect="VersionInvariant")
+    # 1b. discarding (git: versions older than the retention age and covered by the stored
+    # snapshot are removed after add_snapshot): whatever is discarded stays covered by the
+    # snapshot the server holds, so a new replica can reach the latest state
+    retain = dict(Calls={"AV", "GC", "AS", "GS", "Epoch"}, ParentChoices={"latest", "prev", "first", "nil"},
+                  SingleSnap=True, TrimRule="covered", OlderSnaps=False)
+    inv2 = ("VersionInvariant", "MReconstructible")
+    chain_mc(v, wd, "discard-covered", mconsts(MaxLen=5, **retain), invariants=inv2)
+    chain_mc(v, wd, "discard-every-old-version", mconsts(MaxLen=5, **dict(retain, TrimRule="allold")),
+             invariants=inv2, expect="MReconstructible")
+    # known hazard of a single-snapshot backend, outside the listed properties (DESIGN 11.7):
+    # a snapshot for an OLDER version stored after a discard uncovers discarded versions
+    chain_mc(v, wd, "discard-then-older-snapshot", mconsts(MaxLen=5, **dict(retain, OlderSnaps=True)),
+             invariants=inv2, expect="MReconstructible")
 
     # 2. the same call sequences on every backend
     n = 4 if not thorough else 5
@@ -38,6 +51,33 @@ def run(tier):
     rnd = random.Random(seed())
     chain_conform(v, wd, "git-local-1h", "git-local", B(rnd.sample(seq1 + seqs, g)))
     chain_conform(v, wd, "git-remote-2h", "git-remote", B(rnd.sample(seq2, g)))
+    # git with commits backdated beyond the retention age until an "Epoch" step: add_snapshot
+    # really discards version files (the repository's tests set the private retention to zero)
+    seqr = chain_gen(wd, "gen-retention", mconsts(MaxLen=8, Bodies={"small"}, **retain),
+                     simulate=600 if thorough else 40)
+    seqr2 = chain_gen(wd, "gen-retention-2h", mconsts(Handles={"h1", "h2"}, MaxLen=8, Bodies={"small"}, **retain),
+                      simulate=600 if thorough else 40)
+    v.distinct += len(seqr) + len(seqr2)
+    BR = lambda ss: [{"steps": h, "old_epoch": True} for h in ss]
+
+    def telling(h):
+        """a snapshot stored after at least two versions and something read afterwards"""
+        names = [s["a"] for s in h]
+        if "AS" not in names:
+            return False
+        i = names.index("AS")
+        return names[:i].count("AV") >= 2 and any(a in ("GC", "GS", "AV") for a in names[i + 1:])
+    seqr = [h for h in seqr if telling(h)] or seqr
+    seqr2 = [h for h in seqr2 if telling(h)] or seqr2
+    gr = 6 if not thorough else 200
+    chain_conform(v, wd, "git-local-retention", "git-local", BR(rnd.sample(seqr, min(gr, len(seqr)))),
+                  git_wrap=True, trim=True)
+    chain_conform(v, wd, "git-remote-retention", "git-remote", BR(rnd.sample(seqr2, min(gr if thorough else 4, len(seqr2)))),
+                  git_wrap=True, trim=True)
+    trim_selftest(v, wd, "git-local-retention")
+    if not v.extra.get("discards_observed"):
+        v.drift.append("git retention families: no discarded version was observed (cleanup after "
+                       "add_snapshot removed nothing)")
 
     v.finish("model_checking",
              rule="TLC enumerates call sequences (add-version with parent latest / previous / nil "
